@@ -78,4 +78,4 @@ TECHNIQUE = {
 for _p in ["C02", "C03", "C04", "C05", "C07", "C08", "C09", "C10", "C11", "C12", "C13", "C14", "C15", "C19"]:
     TECHNIQUE.setdefault(_p, "TLC model checking (Melda.tla) + schedule replay + TLC trace validation (MeldaTrace.tla)")
 NOTES = ("See DESIGN.md (section 14 = as built). Exit 0 held / 1 VIOLATION with replay file / 2 tool error (no verdict). "
-         "known_findings.json lists P10 (not repaired) and 12 repaired defects.")
+         "known_findings.json lists P10 (not repaired) and 13 repaired defects.")
